@@ -83,6 +83,14 @@ def are_joinable(
     if not block1.size:
         return JoinableResult(True, "block1 is empty")
 
+    if isinstance(block1, gtirb.DataBlock) and block2.size:
+        for table_def in (_auxdata.types, _auxdata.encodings):
+            table = table_def.get(module)
+            if table and table.get(block1) != table.get(block2):
+                return JoinableResult(
+                    False, "blocks have different types or encodings"
+                )
+
     alignment_data = _auxdata.alignment.get(module)
     if alignment_data:
         alignment = alignment_data.get(block2, 1)
@@ -208,6 +216,15 @@ def join_blocks(
             for k, v in displacement_map.items():
                 new_k = block1.size + k
                 new_displacement_map.setdefault(new_k, []).extend(v)
+
+    if isinstance(block2, gtirb.DataBlock):
+        assert isinstance(block1, gtirb.DataBlock)
+        for table_def in (_auxdata.types, _auxdata.encodings):
+            table = table_def.get(module)
+            if table and block2 in table:
+                value = table.pop(block2)
+                if not block1.size:
+                    table[block1] = value
 
     alignment_data = _auxdata.alignment.get(module)
     if alignment_data:
